@@ -191,6 +191,26 @@ def main():
                 continue
             e_ = (r_ - R_[0]) % N
             fam.append(('special %s = %s' % (which, hex(sv_) if sv_ < (1 << 40) else 'large'), Psp, e_, r_, s_, True))
+    # verification points whose affine x lies in [n, p-1] (2^-128 of all points): (e + x1) mod n must be formed with x1 reduced;
+    # R is chosen first and the key solved from R = [s]G + [t]P
+    xs = N
+    bigR = []
+    while len(bigR) < 2 and xs < P:
+        rhs = (xs ** 3 - 3 * xs + ref.B) % P
+        ys = pow(rhs, (P + 1) // 4, P)
+        if ys * ys % P == rhs:
+            bigR.append((xs, ys))
+        xs += 1
+    for R_ in bigR:
+        s_ = rng.randrange(1, N)
+        t_ = rng.randrange(1, N)
+        Pk = ref.mul(pow(t_, -1, N), ref.add(R_, ref.neg(ref.mul(s_))))
+        r_ = (t_ - s_) % N
+        if Pk is None or r_ == 0:
+            continue
+        e_ = (r_ - R_[0]) % N
+        fam.append(('R.x in [n,p)', Pk, e_, r_, s_, True))
+        fam.append(('R.x in [n,p), r flipped', Pk, e_, r_ ^ 1, s_, None))
     rows = []
     for name, pub, e_, r_, s_, want in fam:
         want = ref.verify(pub[0], pub[1], e_, r_, s_) if want is None else want
